@@ -812,8 +812,9 @@ pub fn run(ctx: &Ctx) -> i32 {
                 let e = expect(ts[t].class, &p);
                 let run = (ts[t].ov)(&p);
                 if !matches!(e, Expect::Ok(_)) || judge(&ts[t], &p, Source::Ov, &e, &run).is_some() {
-                    acc.inconclusive(format!("control case {} <- {} does not pass: harness fault", ts[t].name, p.show()));
-                    return acc;
+                    // not a reason to stop: if the implementation is at fault the enumeration below says so
+                    // with a witness (a violation outranks this note); if the harness is, this note remains
+                    acc.inconclusive(format!("control case {} <- {} does not pass", ts[t].name, p.show()));
                 }
             }
         }
